@@ -53,6 +53,9 @@ class Engine:
         self.ctx.build("copydrv")
         r = self.ctx.run(["copydrv", "-mode", "catalogue"], timeout=60)
         self.cat = {s["name"]: s for s in json.loads(r.stdout)}
+        # shapes for the general scenario families ("big" = demo of findings/C04-1, "xref" = the graph on
+        # which ImageCopy with referrers dead-locks, findings/C03-obs-2: both only in dedicated scenarios)
+        self.shapes = [n for n in self.cat if n not in ("big", "xref")]
         return self.cat
 
     def names(self, shape):
@@ -681,6 +684,38 @@ def por_crosscheck(ctx):
         raise vlib.ToolError("partial-order reduction of ImageCopy loses or invents observable states: "
                              "%d reduced vs %d full" % (len(sets["red"]), len(sets["full"])))
     return len(sets["red"])
+
+
+def action_coverage(ctx):
+    """-coverage sanity of (D): every action of ImageCopy.tla as a named disjunct (ImageCopyCov), simulated over
+    a mixed configuration space; returns the per-action counts and the actions never taken."""
+    import re
+    r = ctx.tlc("ImageCopyCov", "C03_cov.cfg", workers=8, simulate="num=3000", depth=400,
+                extra=["-coverage", "1", "-seed", str(ctx.seed)], label="action coverage (simulation)", timeout=1500)
+    counts = {}
+    for line in r["output"].splitlines():
+        m = re.match(r"^<Cov(\w+) line .*>: (\d+):(\d+)", line)
+        if m:
+            counts[m.group(1)] = int(m.group(3))
+    if len(counts) < 30:
+        raise vlib.ToolError("coverage run reported only %d actions" % len(counts))
+    return {"actions": len(counts), "never_taken": sorted(a for a, n in counts.items() if n == 0),
+            "least_taken": sorted(counts.items(), key=lambda kv: kv[1])[:5]}
+
+
+def xref_probe(engine):
+    """findings/C03-obs-2: on two platform images whose referrers are indexes listing the other image,
+    ImageCopy with referrers waits on itself through the seen map.  (D) dead-locks there (TLC), and so does
+    the real code.  Liveness is outside C03 / C04 / C14: recorded, no verdict."""
+    ctx = engine.ctx
+    r = ctx.tlc("ImageCopyMC", "C03_mc_xref.cfg", label="xref + referrers: dead-lock of the seen-map waits expected",
+                allow_violation=True, workers=8)
+    sc = engine.scn("xref", "tworeg", "xref", opts={"referrers": 1}, mode="fifo")
+    n0 = len(engine.stalls)
+    engine.run([sc], "xref")
+    hung = len(engine.stalls) > n0
+    del engine.stalls[n0:]
+    return {"model_deadlock": bool(r["violated"] and "Deadlock" in r["violated"]), "code_hangs": hung}
 
 
 def samples_of(pairs, k=2):
